@@ -337,11 +337,19 @@ def classify(updates, ex):
     if "extra_header" in ex or "extra_vote" in ex:
         return "broadcast-not-in-any-view"
     i = ex["step"]
-    if i == 0:
-        return "first-update-content-not-broadcast"
+    u = updates[i]
     if "missing_header" in ex:
-        return "same-round-header-change-not-broadcast"
-    return "same-round-vote-change-not-broadcast"
+        return ("first-update-" if i == 0 else "") + "header-not-broadcast"
+    mv = ex["missing_vote"]
+    w = "pv" if mv["kind"] == "PV" else "pc"
+
+    def has(v):
+        return v is not None and v["h"] == mv["height"] and v["r"] == mv["round"] and any(
+            t == mv["block_hash"] and [mv["signer"], mv["signature"]] in [list(x) for x in sigs] for t, _, sigs in v[w])
+    in_std = any(has(u[s]) for s in ("c", "v", "n"))
+    if not in_std and has(u["nil"]):
+        return ("first-update-" if i == 0 else "") + "nil-voted-round-precommits-not-broadcast"
+    return ("first-update-" if i == 0 else "same-round-") + ("prevote" if w == "pv" else "precommit") + "-not-broadcast"
 
 
 def main(argv):
@@ -443,6 +451,42 @@ Print corr_bad. Print snd_bad. Print cmp_bad. Print model_bad. Print wf_count.
 
     timings["coq_eval_s"] = round(time.time() - t0, 1)
     # ---- verdict
+    def run_real(us):
+        rc_, out_, _ = c.run_bin(binary, stdin=json.dumps({"cases": [{"updates": us}]}))
+        try:
+            return json.loads(out_)["results"][0]
+        except Exception:
+            return None
+
+    def coq_confirms(us, r, sound_side):
+        body = PREAMBLE + "Definition cs : tcase := (0, ([%s], (%d, %s))).\n" % (
+            ";".join(coq_update(u) for u in us), STATUS.get(r["status"], 5), coq_outs(r["steps"], len(us)))
+        body += "Definition bad := Eval vm_compute in %s cs.\nPrint bad.\n" % ("is_snd_bad" if sound_side else "is_cmp_bad")
+        ok, cout = c.coq_eval("c17_shrunk", body)
+        return ok and re.search(r"bad\s*=\s*true", cout) is not None
+
+    def shrink(us, r, key, sound_side):
+        """Drop updates while the same failure class is still observed on the REAL code
+        (guided by the Python mirror, confirmed at the end by the Coq monitor)."""
+        ex = explain(us, r["steps"])
+        if ex is None:
+            return us, r
+        best, best_r = us[:ex["step"] + 1], None
+        best_r = run_real(best)
+        if best_r is None or classify(best, explain(best, best_r["steps"])) != key:
+            return us, r
+        i = len(best) - 2
+        while i >= 0:
+            cand = best[:i] + best[i + 1:]
+            if cand and cand[0]["v"] is not None:
+                rr = run_real(cand)
+                if rr is not None and classify(cand, explain(cand, rr["steps"])) == key:
+                    best, best_r = cand, rr
+            i -= 1
+        if len(best) < len(us) and coq_confirms(best, best_r, sound_side):
+            return best, best_r
+        return us, r
+
     reported = set()
     for ci in sorted(set(snd_bad) | set(cmp_bad)):
         ex = explain(cases[ci], results[ci]["steps"])
@@ -452,9 +496,13 @@ Print corr_bad. Print snd_bad. Print cmp_bad. Print model_bad. Print wf_count.
         if key in reported:
             continue
         reported.add(key)
+        us, r = cases[ci], results[ci]
+        if not c.replay and not key.startswith("strategy-"):
+            us, r = shrink(us, r, key, ci in snd_bad)
+            ex = explain(us, r["steps"])
         c.report(key, "real ChattyStrategy violates C17 (%s): %s" % (
             "sent something not in any view" if ci in snd_bad else "view content never broadcast", json.dumps(ex)),
-            {"updates": cases[ci], "observed": results[ci], "first_discrepancy": ex,
+            {"updates": us, "observed": r, "first_discrepancy": ex, "shrunk_from_updates": len(cases[ci]),
              "monitor": "c17_sound_mon" if ci in snd_bad else "c17_complete_mon",
              "how": "./check C17 --replay <this file>   (or: echo '{\"cases\":[{\"updates\":...}]}' | bin/h_c17)"})
     impl_violation = bool(snd_bad or cmp_bad)
